@@ -14,6 +14,45 @@ from rules import lib_exec, lib_order, lib_shape
 S = 'yaclib::Strand'
 
 
+class _LinkWalker(lib_exec.ExecWalker):
+    """ExecWalker + ('link', 'null'|'expected'|'other', loc) for assignments to <job>.next and
+    ('is-marker', truth) for comparisons of the observed head with Mark()"""
+
+    def on_edge(self, fn, ci, taken, st):
+        super().on_edge(fn, ci, taken, st)
+        c = fn.sn(ci)
+        neg = False
+        while c is not None and c['k'] == 'UnaryOperator' and c['op'] == '!':
+            neg = not neg
+            c = fn.sn(c['ch'][0])
+        if c is not None and c['k'] == 'BinaryOperator' and c['op'] in ('==', '!='):
+            names = [fn.nodes[j].get('cn', '') for j in fn.deep_descendants(c['i'])]
+            if any(x.endswith('::Mark') for x in names):
+                st.events.append(('is-marker', (taken != neg) == (c['op'] == '==')))
+                st.data = dict(st.data)
+                st.data[('cond-truth', c['i'])] = taken != neg
+
+    def on_node(self, fn, n, st):
+        super().on_node(fn, n, st)
+        if n['k'] == 'BinaryOperator' and n['op'] == '=':
+            l = fn.sn(n['ch'][0])
+            if l is not None and l['k'] == 'MemberExpr' and l.get('mn') == 'next':
+                r = fn.sn(n['ch'][1])
+                if r is not None and r['k'] == 'ConditionalOperator':
+                    c = fn.sn(r['ch'][0])
+                    t = st.data.get(('cond-truth', c['i'])) if c is not None else None
+                    if t is None:
+                        st.events.append(('link', 'other', fn.loc(n)))
+                        return
+                    r = fn.sn(r['ch'][1 if t else 2])
+                cls = 'other'
+                if r is not None and (r['k'] == 'CXXNullPtrLiteralExpr' or r.get('v') == 0):
+                    cls = 'null'
+                elif r is not None and r['k'] == 'DeclRefExpr' and 'id' in r and fn.locals[r['id']]['t'].endswith('*'):
+                    cls = 'expected'
+                st.events.append(('link', cls, fn.loc(n)))
+
+
 def run(ctx):
     fbs = ctx.facts(['K17', 'KF'], kinds=('lib',), only=r'src/exe/strand\.cpp$')
     rw = ctx.rule('R-WORD', 'every operation on Strand::_jobs is a role of its protocol', minimum=6)
@@ -27,6 +66,8 @@ def run(ctx):
                    'analysis over list segments, all batch sizes)', minimum=2)
     rjf = ctx.rule('R-JOBFIELDS', 'every member of Strand that can hold jobs and is used by Call() is drained by Drop() '
                    'too (sibling agreement of the two ways the underlying executor finishes the strand)', minimum=1)
+    rlk = ctx.rule('R-STRAND.link', 'the published job links to the observed head exactly when that head is a job list, '
+                   'and to nullptr exactly when it is the idle marker', minimum=1)
     rcf = ctx.rule('R-CASFRESH', 'every retry of a compare-exchange re-tests the refreshed expected value against the '
                    'sentinels the first attempt tested', minimum=0)
     for cfg, fb in sorted(fbs.items()):
@@ -68,6 +109,37 @@ def run(ctx):
                 if len(subs) != 1:
                     ctx.report(rs, key, subs[1][2], 'the strand schedules itself twice for one transition')
                     break
+        # ---- link: what the pushed job's next pointer is set to
+        key = 'R-STRAND.link Strand::Submit'
+        lw = _LinkWalker(fb, S)
+        res = lw.run(fns['Submit'])
+        ctx.instance(rlk, key, dict(paths=len(res)))
+        for st, _ in res:
+            ev = st.events
+            pub = [i for i, e in enumerate(ev) if e[0] == 'enqueue' and e[1] == 'cas']
+            if not pub:
+                continue
+            links = [i for i, e in enumerate(ev[:pub[-1]]) if e[0] == 'link']
+            if not links:
+                ctx.report(rlk, key, fns['Submit'].where, 'a job is published without its next pointer having been set')
+                break
+            li = links[-1]
+            refresh = max([i for i, e in enumerate(ev[:li]) if e[0] == 'branch' and e[2] is False and any(
+                c.split('::')[-1].startswith('compare_exchange') for c in e[1])] or [-1])
+            tests = [e for e in ev[refresh + 1:li] if e[0] == 'is-marker']
+            known = tests[-1][1] if tests else None
+            cls = ev[li][1]
+            if cls == 'other':
+                ctx.broken('R-STRAND.link: the value stored into job.next is not recognised (%s)' % ev[li][2])
+            if cls == 'expected' and known is not False:
+                ctx.report(rlk, key, ev[li][2], 'the pushed job is linked in front of whatever was observed in _jobs '
+                           'without having excluded the idle marker: the marker (the strand itself) becomes the next '
+                           '"job" of the batch and Call() runs into it')
+                break
+            if cls == 'null' and known is not True:
+                ctx.report(rlk, key, ev[li][2], 'the pushed job gets next = nullptr although the observed head may be a '
+                           'list of pending jobs: those jobs are cut off and never run')
+                break
         # ---- batch end
         f = fns['Call']
         w = lib_exec.ExecWalker(fb, S)
